@@ -635,6 +635,9 @@ func c06FormShapes() []c06form {
 			[]gen.S{{"n": 0.0}, {"n": 1.0}, {"n": 3.0}, {"n": 4.0}, {"e": "u"}, {"e": "w"}, {"n": 2.0, "e": "v"}}},
 		{"arrays", gen.S{"type": "object", "properties": gen.S{"tags": gen.S{"type": "array", "items": str, "minItems": 2.0}, "ids": gen.S{"type": "array", "items": integer, "maxItems": 2.0}}},
 			[]gen.S{{"tags": gen.Arr("p", "q")}, {"tags": gen.Arr("p")}, {"ids": gen.Arr(1.0, 2.0)}, {"ids": gen.Arr(1.0, 2.0, 3.0)}, {"tags": gen.Arr("p", "q", "r"), "ids": gen.Arr(9.0)}}},
+		// an empty field is the empty string (and an empty item an empty item), not an absent or null one
+		{"empty-strings", gen.S{"type": "object", "properties": gen.S{"a": str, "b": gen.S{"type": "string", "maxLength": 0.0}, "m": gen.S{"type": "string", "minLength": 1.0}, "tags": gen.S{"type": "array", "items": str, "minItems": 2.0}}, "required": gen.Arr("a")},
+			[]gen.S{{"a": ""}, {"a": "", "b": ""}, {"a": "x", "m": ""}, {"a": "x", "tags": gen.Arr("p", "", "q")}, {"a": "x", "tags": gen.Arr("", "")}, {"a": "x", "b": "y"}}},
 		{"closed", gen.S{"type": "object", "properties": gen.S{"a": str}, "additionalProperties": false},
 			[]gen.S{{"a": "x"}, {}, {"a": "x", "zz": "undeclared"}, {"zz": "undeclared"}}},
 		{"additional-typed", gen.S{"type": "object", "properties": gen.S{"a": str}, "additionalProperties": gen.S{"type": "string", "maxLength": 2.0}},
